@@ -168,7 +168,9 @@ class Report:
     def finish(self, replay_fn=None):
         """replay_fn(case) -> list of messages; used to confirm each violation from
         scratch before reporting it (DESIGN 2.4)."""
-        os.makedirs(os.path.join(VERIF, "evidence"), exist_ok=True)
+        # runs against a scratch copy (mutants, seeded changes: VERIF_REPO set) must not overwrite the evidence of the real tree
+        self.evdir = os.path.join(VERIF, "evidence") if os.path.realpath(REPO) == "/repo" else os.path.join(VERIF, "replays", "scratch-evidence")
+        os.makedirs(self.evdir, exist_ok=True)
         os.makedirs(os.path.join(VERIF, "replays"), exist_ok=True)
         confirmed = []
         seen_digest = set()
@@ -236,7 +238,7 @@ class Report:
         except Exception as ex:
             # e.g. every case failed before producing an outcome: the violations below are what matters
             print("note: evidence does not validate against the schema: %s" % str(ex).splitlines()[0])
-        with open(os.path.join(VERIF, "evidence", "%s.json" % self.pid), "w") as f:
+        with open(os.path.join(self.evdir, "%s.json" % self.pid), "w") as f:
             json.dump(ev, f, indent=1, sort_keys=True)
         for sig, ent in self.known_seen.items():
             print("KNOWN-FINDING: property=%s %s (observed %d times this run)"
